@@ -150,6 +150,7 @@ class Explorer:
 
     def check_state(self, ds, ref, program, taint, tags=frozenset()):
         """Evaluate the invariant in one state; returns (ok to descend, taint for the children)."""
+        common.gc_tick()
         self.stats['states'] += 1
         if ref.n() > 1:
             self.stats['states_nontrivial'] += 1
